@@ -30,7 +30,8 @@ MODEL_FILES = ['MaltModel/Func/Target.lean', 'MaltModel/Func/Functionalise.lean'
 FUEL = 400
 CLASSES = ['for_target_live_across_zero_trip',
            'nested_function_parameter_shadows_global', 'state_var_unbound_local_of_enclosing_body',
-           'nonlocal_state_var_marked_input_only']
+           'nonlocal_state_var_marked_input_only', 'nonlocal_in_closure_nested_two_levels',
+           'stored_lambda_reads_reassigned_variable']
 
 
 # ------------------------------------------------------------------------------------------------
@@ -98,77 +99,237 @@ def cls_nonlocal_input_only(source_fn):
     return False
 
 
+def _arg_names(args):
+    out = [x.arg for x in list(getattr(args, 'posonlyargs', [])) + list(args.args) + list(args.kwonlyargs)]
+    for x in (args.vararg, args.kwarg):
+        if x is not None:
+            out.append(x.arg)
+    return set(out)
+
+
+def _is_artifact_lambda(v):
+    """`lambda ...` or `ag__.autograph_artifact(lambda ...)` (what the functions pass makes of a lambda inside a function)."""
+    if isinstance(v, ast.Lambda):
+        return v
+    if isinstance(v, ast.Call) and B._is_ag(v.func, 'autograph_artifact') and len(v.args) == 1 and isinstance(v.args[0], ast.Lambda):
+        return v.args[0]
+    return None
+
+
+class ScopeFacts(object):
+    """Own-level facts of one function / lambda: loads, stores, nonlocal/global declarations, nested functions and lambdas,
+    lambdas sitting in the default values of nested defs (those are evaluated — and their variables captured — in THIS
+    scope)."""
+
+    def __init__(self, fn):
+        self.fn = fn
+        self.params = _arg_names(fn.args)
+        self.loads, self.stores, self.decl = set(), set(), set()
+        self.nested = []            # FunctionDef / Lambda whose body is another scope
+        self.default_lambdas = {}   # name of a nested def -> lambdas in its default values
+        self.immediate = set()      # id() of lambdas that are called where they stand
+        for s in (fn.body if isinstance(fn.body, list) else [fn.body]):
+            self.visit(s)
+
+    def visit(self, n):
+        if isinstance(n, (ast.FunctionDef, ast.AsyncFunctionDef)):
+            self.stores.add(n.name)
+            self.nested.append(n)
+            for d in list(n.args.defaults) + [x for x in n.args.kw_defaults if x is not None] + list(n.decorator_list):
+                for m in ast.walk(d):
+                    if isinstance(m, ast.Lambda):
+                        self.default_lambdas.setdefault(n.name, []).append(m)
+                self.visit(d)
+            return
+        if isinstance(n, ast.Lambda):
+            self.nested.append(n)
+            for d in list(n.args.defaults) + [x for x in n.args.kw_defaults if x is not None]:
+                self.visit(d)
+            return
+        if isinstance(n, ast.ClassDef):
+            self.stores.add(n.name)
+            return
+        if isinstance(n, (ast.Nonlocal, ast.Global)):
+            self.decl |= set(n.names)
+            return
+        if isinstance(n, ast.Call) and isinstance(n.func, ast.Lambda):
+            self.immediate.add(id(n.func))
+        if isinstance(n, ast.Name):
+            (self.stores if isinstance(n.ctx, (ast.Store, ast.Del)) else self.loads).add(n.id)
+        if isinstance(n, ast.AugAssign) and isinstance(n.target, ast.Name):
+            self.loads.add(n.target.id)
+        for c in ast.iter_child_nodes(n):
+            self.visit(c)
+
+    @property
+    def bound(self):
+        return (self.params | self.stores) - self.decl
+
+
+def free_reads(fn, skip=()):
+    """Variables of enclosing scopes that running `fn` may read, through any depth of nested functions / lambdas:
+    name -> depth of the shallowest `nonlocal` declaration that names it (0 = in `fn` itself) or None.
+    `skip`: ids of lambdas that contribute nothing (used to single out what is read through stored lambdas only)."""
+    f = ScopeFacts(fn)
+    out = {}
+    for v in f.loads - f.bound:
+        out[v] = None
+    for v in f.decl:
+        out[v] = 0
+    for g in f.nested:
+        if id(g) in skip:
+            continue
+        for v, dp in free_reads(g, skip).items():
+            if v in f.bound:
+                continue
+            dp = None if dp is None else dp + 1
+            if v not in out or (out[v] is None and dp is not None):
+                out[v] = dp
+    return out
+
+
 def closure_reads_live(cf_node, annos_of):
     """LiveConsistent-style check on the REAL annotations for what the Lean fragment does not contain: a statement that
-    calls a local function `g` reads the enclosing function's variables that `g` reads, so they must be in the statement's
-    LIVE_VARS_IN (also when the same statement rebinds them).  Returns [(kind, variable, statement)]:
-    kind 'closure-call:nonlocal' = the variable is declared nonlocal in g (was the finding nonlocal_write_in_reaching_closure,
-    fixed by ccf3d44), 'closure-call:reads' = anything else; neither is in a known class any more."""
+    calls a local function `g` (directly or through an alias) reads the enclosing function's variables that ANY function
+    reachable from `g` reads — `g` itself, the functions and lambdas nested in it at any depth, the sibling local
+    functions it calls, lambdas in its default values — so they must be in the statement's LIVE_VARS_IN (also when the
+    same statement rebinds them).  Returns [(kind, variable, statement)]:
+    'closure-call:lambda' = the variable is read only through a lambda stored in the enclosing function's own scope
+    (finding class stored_lambda_reads_reassigned_variable); 'closure-call:nonlocal-deep' = it is declared nonlocal only in
+    a function nested deeper than the called one (class nonlocal_in_closure_nested_two_levels);
+    'closure-call:nonlocal' = declared nonlocal in the called function (the finding fixed by ccf3d44);
+    'closure-call:reads' = anything else.  The last two are in no known class."""
     out = []
     if cf_node is None:
         return out
-
-    def own(fn):
-        stack = list(fn.body)
-        while stack:
-            s = stack.pop()
-            yield s
-            if isinstance(s, (ast.FunctionDef, ast.ClassDef)):
-                continue
-            for sub in ('body', 'orelse', 'finalbody'):
-                b = getattr(s, sub, None)
-                if isinstance(b, list):
-                    stack.extend(x for x in b if isinstance(x, ast.stmt))
-            if isinstance(s, ast.Try):
-                for h in s.handlers:
-                    stack.extend(h.body)
-
-    def exprs_of(s):
-        if isinstance(s, (ast.Assign, ast.AugAssign, ast.Return, ast.Expr)):
-            return [s.value] if s.value is not None else []
-        if isinstance(s, (ast.If, ast.While)):
-            return [s.test]
-        if isinstance(s, ast.For):
-            return [s.iter]
-        return []
     for fn in ast.walk(cf_node):
         if not isinstance(fn, ast.FunctionDef):
             continue
-        local_fns = dict((s.name, s) for s in own(fn) if isinstance(s, ast.FunctionDef))
-        if not local_fns:
+        facts = ScopeFacts(fn)
+        owned = facts.params | facts.stores
+        own = B.own_statements(fn)
+        # callables of fn's own scope: name -> [def / lambda nodes]; aliases name -> names
+        defs, alias, own_lambdas = {}, {}, set()
+        for s in own:
+            if isinstance(s, ast.FunctionDef):
+                defs.setdefault(s.name, []).append(s)
+            elif isinstance(s, ast.Assign) and len(s.targets) == 1 and isinstance(s.targets[0], ast.Name):
+                lam = _is_artifact_lambda(s.value)
+                if lam is not None:
+                    defs.setdefault(s.targets[0].id, []).append(lam)
+                    own_lambdas.add(id(lam))
+                elif isinstance(s.value, ast.Name):
+                    alias.setdefault(s.targets[0].id, set()).add(s.value.id)
+        for name, lams in facts.default_lambdas.items():
+            own_lambdas |= set(id(m) for m in lams)
+        if not defs:
             continue
-        owned = set(a.arg for a in fn.args.args)
-        for s in own(fn):
+
+        def resolve(name, seen):
+            if name in seen:
+                return set()
+            seen.add(name)
+            r = {name} if name in defs else set()
+            for t in alias.get(name, ()):
+                r |= resolve(t, seen)
+            return r
+
+        def reach(name, skip):
+            need, todo, done = {}, list(resolve(name, set())), set()
+            while todo:
+                g = todo.pop()
+                if g in done:
+                    continue
+                done.add(g)
+                nodes = [d for d in defs.get(g, []) if id(d) not in skip]
+                nodes += [m for m in facts.default_lambdas.get(g, []) if id(m) not in skip]
+                for d in nodes:
+                    for v, dp in free_reads(d, skip).items():
+                        if v in owned and (v not in need or (need[v] is None and dp is not None)):
+                            need[v] = dp
+                        for t in resolve(v, set()):
+                            todo.append(t)
+            return need
+        callable_names = set(defs) | set(n for n in alias if resolve(n, set()))
+        for s in own:
             if isinstance(s, (ast.FunctionDef, ast.ClassDef)):
                 continue
-            for e in exprs_of(s) + ([t for t in getattr(s, 'targets', [])] if isinstance(s, ast.Assign) else []) \
-                    + ([s.target] if isinstance(s, (ast.AugAssign, ast.For)) else []):
-                for n in ast.walk(e):
-                    if isinstance(n, ast.Name) and isinstance(n.ctx, ast.Store):
-                        owned.add(n.id)
-        free = {}
-        for name, g in local_fns.items():
-            params = set(a.arg for a in g.args.args)
-            nl, stores, loads = set(), set(), set()
-            for n in ast.walk(g):
-                if isinstance(n, ast.Nonlocal):
-                    nl |= set(n.names)
-                elif isinstance(n, ast.Name):
-                    (stores if isinstance(n.ctx, ast.Store) else loads).add(n.id)
-            free[name] = (((loads - params - (stores - nl)) | nl) & owned, nl)
-        for s in own(fn):
             an = annos_of(s)
             if 'LIVE_VARS_IN' not in an:
                 continue
-            for e in exprs_of(s):
+            exprs = []
+            if isinstance(s, (ast.Assign, ast.AugAssign, ast.Return, ast.Expr)) and s.value is not None:
+                exprs.append(s.value)
+            elif isinstance(s, (ast.If, ast.While)):
+                exprs.append(s.test)
+            elif isinstance(s, ast.For):
+                exprs.append(s.iter)
+            for e in exprs:
                 for n in ast.walk(e):
-                    if isinstance(n, ast.Call) and B._is_ag(n.func, 'converted_call') and n.args and isinstance(n.args[0], ast.Name) \
-                            and n.args[0].id in free:
-                        fv, nl = free[n.args[0].id]
-                        for v in sorted(fv):
-                            if v not in an['LIVE_VARS_IN']:
-                                out.append(('closure-call:nonlocal' if v in nl else 'closure-call:reads', v, ast.unparse(ast.fix_missing_locations(s))[:120]))
+                    if not (isinstance(n, ast.Call) and B._is_ag(n.func, 'converted_call') and n.args):
+                        continue
+                    f0 = n.args[0]
+                    if isinstance(f0, ast.Call) and B._is_ag(f0.func, 'ld') and f0.args:
+                        f0 = f0.args[0]
+                    if not (isinstance(f0, ast.Name) and f0.id in callable_names):
+                        continue
+                    need = reach(f0.id, ())
+                    need_nolam = reach(f0.id, own_lambdas) if own_lambdas else need
+                    for v in sorted(need):
+                        if v in an['LIVE_VARS_IN']:
+                            continue
+                        if v not in need_nolam:
+                            kind = 'closure-call:lambda'
+                        elif need[v] is not None and need[v] >= 1:
+                            kind = 'closure-call:nonlocal-deep'
+                        elif need[v] == 0:
+                            kind = 'closure-call:nonlocal'
+                        else:
+                            kind = 'closure-call:reads'
+                        out.append((kind, v, ast.unparse(ast.fix_missing_locations(s))[:120]))
     return out
+
+
+def cls_nonlocal_two_levels(source_fn):
+    """Syntactic: a function nested at least two levels below the function that owns `v` declares `v` nonlocal (its direct
+    parent does not bind `v`)."""
+    def go(fn, chain):
+        f = ScopeFacts(fn)
+        if isinstance(fn, ast.FunctionDef) and len(chain) >= 2:
+            parent = chain[-1]
+            if any(v not in parent.bound for v in f.decl):
+                return True
+        return any(go(g, chain + [f]) for g in f.nested)
+    return go(source_fn, [])
+
+
+def cls_stored_lambda(source_fn, reassigned=True):
+    """Syntactic: a lambda that is not called where it stands, evaluated in the own scope of a function F (assigned to a name
+    of F, in a default value of a def of F, ...), reads a variable of F that F assigns inside a compound statement.
+    reassigned=False: reads any variable of F (the liveness annotation lacks it at the call whether or not that is visible:
+    used only to attribute the annotation checker's kind closure-call:lambda, never a failing input)."""
+    for fn in ast.walk(source_fn):
+        if not isinstance(fn, ast.FunctionDef):
+            continue
+        f = ScopeFacts(fn)
+        lams = [g for g in f.nested if isinstance(g, ast.Lambda) and id(g) not in f.immediate]
+        for ls in f.default_lambdas.values():
+            lams += [m for m in ls if id(m) not in f.immediate]
+        if not lams:
+            continue
+        under = set()
+        for s in B.own_statements(fn):
+            if isinstance(s, (ast.If, ast.While, ast.For, ast.Try, ast.With)):
+                for sub in ast.walk(s):
+                    if isinstance(sub, (ast.FunctionDef, ast.Lambda)):
+                        continue
+                    if isinstance(sub, ast.Name) and isinstance(sub.ctx, ast.Store):
+                        under.add(sub.id)
+        owned = (f.params | f.stores) - f.decl
+        for m in lams:
+            if set(free_reads(m)) & owned & (under if reassigned else owned):
+                return True
+    return False
 
 
 _GEN_BODY_PREFIXES = ('if_body', 'else_body', 'loop_body')
@@ -245,6 +406,10 @@ def classify(source_fn, module_names, cf_node, annos_of, final_fn):
         out.append('state_var_unbound_local_of_enclosing_body')
     if cls_nonlocal_input_only(source_fn):
         out.append('nonlocal_state_var_marked_input_only')
+    if cls_nonlocal_two_levels(source_fn):
+        out.append('nonlocal_in_closure_nested_two_levels')
+    if cls_stored_lambda(source_fn):
+        out.append('stored_lambda_reads_reassigned_variable')
     return out
 
 
@@ -441,7 +606,7 @@ def record(c):
     r = {'stream': c.stream, 'key': c.prog.key, 'fsrc': c.fsrc, 'inputs': [list(a) for a in c.prog.inputs],
          'features': sorted(c.prog.features), 'conv_error': c.conv_error, 'results': c.results, 'counters': c.counters,
          'classes': classify(c.source_fn, c.module_names, c.cf_node, c.annos_of, c.final_fn), 'same_code': c.same_code,
-         'closure_live': closure_reads_live(c.cf_node, c.annos_of),
+         'closure_live': closure_reads_live(c.cf_node, c.annos_of), 'stored_lambda_any': cls_stored_lambda(c.source_fn, False),
          'frag': None, 'unsupported': None, 'shape': None, 'wshape': None, 'wfrag': None, 'wunsupported': None}
     if c.conv_error is None and c.final_fn is not None:
         r['wshape'] = B.wrapper_shape_problems(c.source_fn, c.final_fn)
@@ -637,7 +802,12 @@ def check(run, only=None):
     for r in recs:
         for kind, v, st in r.get('closure_live') or []:
             ck[kind] = ck.get(kind, 0) + 1
-            if True:    # 'closure-call:nonlocal' was the class of a finding fixed by ccf3d44: every kind is unattributed now
+            # 'closure-call:nonlocal' was the class of a finding fixed by ccf3d44 and 'closure-call:reads' never had one:
+            # unattributed; the other two kinds belong to open findings, attributed through the program's class predicate
+            cls_of_kind = {'closure-call:nonlocal-deep': 'nonlocal_in_closure_nested_two_levels',
+                           'closure-call:lambda': 'stored_lambda_reads_reassigned_variable'}.get(kind)
+            in_cls = cls_of_kind in r['classes'] or (kind == 'closure-call:lambda' and r.get('stored_lambda_any'))
+            if cls_of_kind is None or not in_cls:
                 unattributed.append({'source': r['fsrc'], 'kind': kind, 'variable': v, 'statement': st})
     cov['closure_read_liveness_violations'] = ck
     run.oblige('checker:closure-reads-live-on-real-annotations', 'checker', not unattributed,
